@@ -196,6 +196,12 @@ where
 
         let (event_log, vault) =
             self.replace_folder(folder_id, &diff).await?;
+        if folder_id != vault.id() {
+            return Err(Error::VaultIdentifierMismatch(
+                *folder_id,
+                *vault.id(),
+            ));
+        }
         self.write_vault(&vault).await?;
 
         self.folders_mut()
